@@ -275,7 +275,18 @@ def run(pm, ctx):
     es = [n for n in ast.walk(ml) if isinstance(n, ast.Call) and call_name(n) == "np.einsum"]
     site = "Douglas._merge_leaf"
     if not es:
-        ctx.unrecognised("C15-b", site, "no einsum")
+        # another spelling of the product (broadcasting, ...): decided on the entries of the product themselves (E8, same analysis as C03-l)
+        try:
+            from ..e8_models import douglas_kronecker
+            from ..e8_index import Unsupported as _U8
+            st_, det_ = douglas_kronecker(pm)
+            if st_ == "exact":
+                ctx.ok("C15-b", site, det_)
+            else:
+                ctx.violation("C15-b", u.relpath, "Douglas._merge_leaf", "product", "leaf memberships are not the per-sample outer product of the bins of two features: " + det_,
+                              line=ml.lineno, site=site)
+        except Exception as e:
+            ctx.unrecognised("C15-b", site, f"no einsum and the product is outside the translated subset: {e}")
     elif isinstance(es[0].args[0], ast.Constant) and es[0].args[0].value.replace(" ", "") == "ij,ik->ijk" and [norm_src(a) for a in es[0].args[1:]] == func_params(ml)[1:3]:
         ctx.ok("C15-b", site, "per-sample outer product of the two membership vectors")
     else:
